@@ -148,7 +148,12 @@ def main(argv: List[str] | None = None) -> int:
         if hasattr(mod, 'replay') and v.get('unit') is not None or v.get('case') is not None:
             doc = {'unit': jsonable(v.get('unit')), 'choices': v.get('choices'), 'case': jsonable(v.get('case')),
                    'clause': v.get('clause')}
-            again = mod.replay(doc)
+            try:
+                again = mod.replay(doc)
+            except Exception as exc:  # noqa: BLE001 - a harness defect must not hide what was found
+                lines.append(f'ERROR property={pid} re-execution of a violation raised {exc!r} (clause={v.get("clause")})')
+                rc = 2
+                again = [v]
             if not any(a.get('clause') == v.get('clause') for a in again):
                 lines.append(f'NONDETERMINISM property={pid} clause={v.get("clause")}: violation did not reproduce on '
                              f're-execution ({jsonable(v.get("unit"))}, {v.get("choices")})')
